@@ -74,6 +74,14 @@ func (h *Hub) AllowWaitingForTrust(ski string) bool {
 
 // report the updated SHIP handshake state and optional error message for a SKI
 func (h *Hub) HandleShipHandshakeStateUpdate(ski string, state model.ShipState) {
+	// only the registered connection defines the state of a service: with a double connection the connection
+	// that is not kept still reports its states, which would overwrite those of the connection in use
+	if conn := h.connectionForSKI(ski); conn != nil {
+		if connState, _ := conn.ShipHandshakeState(); connState != state.State {
+			return
+		}
+	}
+
 	// overwrite service Paired value
 	if state.State == model.SmeHelloStateOk {
 		service := h.ServiceForSKI(ski)
